@@ -104,6 +104,26 @@ def directed(ctx):
                 s = ad + pipe.rs(rng, 5) + revcomp(ad)
             reads.append((f"r{i}", s, "".join(chr(33 + rng.randint(2, 40)) for _ in s)))
         cases.append(dict(argv=argv, paired=False, reads1=reads, reads2=None, with_qual=True, interleaved_in=False))
+    # several adapters and several rounds: the *summed* score over all rounds decides, e.g. one perfect copy of the longest adapter on the
+    # given strand against two shorter matches on the other strand
+    for _ in range(ctx.scale(40, 500)):
+        A, B = rng.choice([("GCTTAGGACCATTCGA", "TTGCACCGTAAG"), ("AAAGGGCCCTTT", "GATTACAGA"), ("ACGTTGCAAGGT", "CCATGGTTAACC")])
+        fa, fb = rng.choice(["-a", "-a", "-b"]), rng.choice(["-a", "-a", "-g"])
+        argv = ["--no-index", fa, "a0=" + A, fb, "a1=" + B, "--revcomp", "--times", str(rng.randint(2, 3))]
+        if rng.random() < 0.3:
+            argv += ["--action", rng.choice(["mask", "lowercase", "none"])]
+        if rng.random() < 0.2:
+            argv += ["--rename", "{id} {adapter_name} {rc}"]
+        argv += ["-o", "{dir}/o1.fastq"]
+        reads = []
+        for i in range(6):
+            blocks = [pipe.rs(rng, rng.randint(4, 9))]
+            for _b in range(rng.randint(1, 4)):
+                blocks.append(rng.choice([A, B, revcomp(A), revcomp(B), revcomp(A), revcomp(B)]))
+                blocks.append(pipe.rs(rng, rng.randint(0, 7)))
+            s = "".join(blocks)
+            reads.append((f"r{i}", s, "".join(chr(33 + rng.randint(2, 40)) for _ in s)))
+        cases.append(dict(argv=argv, paired=False, reads1=reads, reads2=None, with_qual=True, interleaved_in=False))
     # the known corner: very tolerant adapter, forward match with negative score
     cases.append(dict(argv=["--no-index", "--revcomp", "-e", "0.9", "--no-indels", "-a", "a0=GCCCCCCCCG$", "-o", "{dir}/o1.fastq"], paired=False,
                       reads1=[("r0", "ATTTTTTTTG", "IIIIIIIIII")], reads2=None, with_qual=True, interleaved_in=False))
